@@ -170,6 +170,9 @@ type Target struct {
 	// returned: the value (Val, *Res or nil), fresh ("-" if the API has no such flag, else "0"/"1") and the error.
 	Invoke func(c *Call, fn func() (any, error)) (v any, fresh string, err error)
 	Inject func(key int, res *Res) // nil: not supported
+	// NotFoundErr is the user's "no such row" error (nil: ErrNotFound): what an ek=5 loader returns and what a caller
+	// of a key with a cached not-found placeholder gets
+	NotFoundErr error
 	// Corrupt (nil: not supported) puts an entry that cannot be decoded under the key before the calls start (cacheNode:
 	// a redis value that is not JSON - processCache deletes it and reports not-found, the row is loaded afresh)
 	Corrupt func(key int)
@@ -183,6 +186,7 @@ func (c *Call) Ex() bool { return c.ex }
 func (c *Call) G() int   { return c.g }
 
 // CX is the kind of context the call passes to a ...Ctx entry point: 0 Background, 1 a deadline far in the future,
+// 3 a deadline that has already passed (context.DeadlineExceeded; only in dl=1 sections),
 // 2 an already cancelled context (the cache lookup inside the flight fails with context.Canceled: no query, the error
 // goes to everyone who shares the flight; printed err=lk).
 func (c *Call) CX() int { return c.cx }
@@ -334,6 +338,9 @@ func RunSection(cfg verifh.Cfg, ops []string, mk func(cfg verifh.Cfg) Target) []
 			var e0 error
 			if c.serr {
 				e0 = mkErr(c)
+				if c.ek == 5 && tg.NotFoundErr != nil {
+					e0 = tg.NotFoundErr
+				}
 				mu.Lock()
 				c.errObj = e0
 				mu.Unlock()
@@ -341,6 +348,10 @@ func RunSection(cfg verifh.Cfg, ops []string, mk func(cfg verifh.Cfg) Target) []
 			if mode == "rm" {
 				if c.serr {
 					return nil, e0
+				}
+				if c.nilv {
+					// the loader returns (nil, nil): no error, no resource
+					return nil, nil
 				}
 				res := &Res{ID: c.id}
 				mu.Lock()
@@ -405,10 +416,20 @@ func RunSection(cfg verifh.Cfg, ops []string, mk func(cfg verifh.Cfg) Target) []
 					c.val = fmt.Sprint(x.ID)
 				case nil:
 					c.val = "nil"
+					if mode == "rm" && err == nil && !c.panicked {
+						// (nil, nil) from a user without a type assertion (collection.Cache.Take): the cached nil
+						// instance - name the execution that loaded it
+						for _, d := range calls {
+							if d.key == c.key && d.nilv && !d.serr && !d.spanic && d.runs > 0 {
+								c.val = fmt.Sprint(d.id)
+								break
+							}
+						}
+					}
 				default:
 					c.val = "bad"
 				}
-				if err == ErrNotFound && mode == "rm" {
+				if (err == ErrNotFound || (tg.NotFoundErr != nil && err == tg.NotFoundErr)) && mode == "rm" {
 					// the cached not-found placeholder: name the execution that reported not-found for this key
 					c.val = "800000"
 					for _, d := range calls {
@@ -417,7 +438,7 @@ func RunSection(cfg verifh.Cfg, ops []string, mk func(cfg verifh.Cfg) Target) []
 							break
 						}
 					}
-				} else if err == context.Canceled && mode == "rm" {
+				} else if (err == context.Canceled || err == context.DeadlineExceeded) && mode == "rm" {
 					// the lookup inside the flight failed (cancelled context of the flight's leader)
 					c.err = "lk"
 				} else if err != nil {
@@ -582,6 +603,9 @@ func errName(err error, v any, calls []*Call) string {
 
 // ---------------------------------------------------------------- generator
 
+// nodeUser: the users of cacheNode.doTake (cacheNode itself, sqlc's CachedConn on top of it): same generator classes.
+func nodeUser(via string) bool { return via == "cacheNode.Take" || via == "sqlc.QueryRow" }
+
 // Gen generates nsec sections. via == "": the three objects of core/syncx (modes sf / lc / rm with Inject, Close,
 // panics and delayed flight entry); via != "": ResourceManager-like sections (mode=rm via=<user>) for a user of
 // SingleFlight whose observable behaviour is "load once per key, everyone gets the leader's value".
@@ -622,6 +646,11 @@ func Gen(r *verifh.Rng, nsec int, via string) []verifh.Section {
 		// (rm: the leader's GetResource panics and so do the joiners of that flight; not for the users driven through
 		// Take: collection.Cache.Take hands (nil, nil) to the joiners of a panicking fetch)
 		panicSec := r.Chance(1, 4)
+		// sections with loaders that return (nil, nil) (GetResource and Cache.Take; no panics, no Inject, no Close there)
+		nilSec := mode == "rm" && !nodeUser(via) && r.Chance(1, 6)
+		if nilSec {
+			panicSec = false
+		}
 		// several instances of the object under test in one section (state must not leak between instances: the maps
 		// are per instance). Key n of instance i is written key=<100*i+n>; the targets use the SAME key string n on
 		// instance i, the monitor and the model see different keys: a flight / wait group / resource shared between
@@ -629,7 +658,8 @@ func Gen(r *verifh.Rng, nsec int, via string) []verifh.Section {
 		objs := r.Pick(1, 1, 2, 3)
 		var ops []string
 		id := 0
-		if mode == "rm" && via == "" && r.Chance(1, 3) {
+		dlSec, nDl := nodeUser(via) && r.Chance(1, 4), 0
+		if mode == "rm" && via == "" && !nilSec && r.Chance(1, 3) {
 			// pre-registered resources (Inject): GetResource must hand out exactly those, create never runs
 			for ob := 0; ob < objs; ob++ {
 				for key := 0; key < k; key++ {
@@ -639,7 +669,7 @@ func Gen(r *verifh.Rng, nsec int, via string) []verifh.Section {
 				}
 			}
 		}
-		if via == "cacheNode.Take" && r.Chance(1, 4) {
+		if nodeUser(via) && r.Chance(1, 4) {
 			// entries that cannot be decoded are in the cache before the calls start (processCache: delete, reload)
 			for ob := 0; ob < objs; ob++ {
 				for key := 0; key < k; key++ {
@@ -703,7 +733,7 @@ func Gen(r *verifh.Rng, nsec int, via string) []verifh.Section {
 					}
 				}
 				ep := -1
-				if via == "cacheNode.Take" {
+				if nodeUser(via) {
 					// all four public entry points into doTake: 0 Take, 1 TakeWithExpire, 2 TakeCtx, 3 TakeWithExpireCtx
 					ep = r.Intn(4)
 					ex = ep % 2
@@ -721,11 +751,16 @@ func Gen(r *verifh.Rng, nsec int, via string) []verifh.Section {
 					if mode != "rm" && r.Chance(1, 5) {
 						ek = 4
 					}
-					if via == "cacheNode.Take" && r.Chance(1, 3) {
+					if nodeUser(via) && r.Chance(1, 3) {
 						// the loader reports "no such row": negative caching (setCacheWithNotFound, the placeholder)
 						ek = 5
 					}
 					op += fmt.Sprintf(" ek=%d", ek)
+				}
+				if nilSec && serr == 0 && r.Chance(1, 5) {
+					// the loader returns (nil, nil): GetResource stores nil and its type assertion panics for the leader, the
+					// joiners and every later caller of the key; Cache.Take caches nil and hands (nil, nil) to everyone
+					op += " nilv=1"
 				}
 				if mode != "rm" && serr == 0 && !strings.Contains(op, "panic=1") && r.Chance(1, 8) {
 					// the function returns (nil, nil): a value like any other (sf: handed to the joiners, lc: own result)
@@ -735,8 +770,16 @@ func Gen(r *verifh.Rng, nsec int, via string) []verifh.Section {
 					op += fmt.Sprintf(" ep=%d", ep)
 				}
 				if ep >= 2 {
-					// the context handed to TakeCtx / TakeWithExpireCtx: Background, far deadline, already cancelled
-					op += fmt.Sprintf(" cx=%d", r.Pick(0, 1, 1, 2))
+					// the context handed to TakeCtx / TakeWithExpireCtx: Background, far deadline, already cancelled; in dl=1
+					// sections (breaker isolated: a redis client of their own) at most 4 calls with an EXPIRED deadline -
+					// context.DeadlineExceeded counts as a failure for the redis breaker, 4 failures stay below its
+					// protection threshold, so it never drops a healthy call
+					cx := r.Pick(0, 1, 1, 2)
+					if dlSec && nDl < 4 && r.Chance(1, 3) {
+						cx = 3
+						nDl++
+					}
+					op += fmt.Sprintf(" cx=%d", cx)
 				}
 				ops = append(ops, op)
 			}
@@ -746,7 +789,10 @@ func Gen(r *verifh.Rng, nsec int, via string) []verifh.Section {
 			// the constructor's options: 0 none, 1 / 2 present, 3 zero-valued, 4 negative, 5 empty / swapped order (see the targets)
 			cfg += fmt.Sprintf(" opt=%d", r.Pick(0, 0, 1, 2, 3, 4, 5))
 		}
-		if via == "cacheNode.Take" {
+		if dlSec {
+			cfg += " dl=1"
+		}
+		if nodeUser(via) {
 			// dst=1: every goroutine takes into ONE destination variable, call after call, and overwrites it as soon as a
 			// Take has returned (a caller may do with its own variable what it likes once its call is over): what a
 			// sharer of the flight is handed must be a snapshot made inside the execution, not the leader's memory
@@ -755,7 +801,7 @@ func Gen(r *verifh.Rng, nsec int, via string) []verifh.Section {
 		if via != "" {
 			cfg += " via=" + via
 		}
-		if mode == "rm" && via == "" && r.Chance(2, 3) {
+		if mode == "rm" && via == "" && !nilSec && r.Chance(2, 3) {
 			ops = append(ops, "close")
 		}
 		if mode == "rm" {
